@@ -605,7 +605,16 @@ pub fn classify_panic(host: &Host, p: &PanicInfo, cx: &Ctx) -> Option<(&'static 
     // `block_on` whose body yields before anything was registered
     if base == "async_support.rs" && p.msg.contains("Option::unwrap()") && task.map_or(false, |t| t.is_block_on) {
         let made_set = host.log.iter().any(|e| matches!(e, Ev::Call { task, name: "waitable-set.new", .. } if *task == p.task));
-        if !made_set {
+        // no waitable set was ever created and the poll right before the panic woke its own waker (a yield)
+        let finished = host.log.iter().any(|e| matches!(e, Ev::Mon { task, key: "work.finished", .. } if *task == p.task));
+        let last_two: Vec<&'static str> = host.log.iter().rev().filter_map(|e| match e {
+            // (destruction during the unwinding comes after the panic)
+            Ev::Mon { task, key, .. } if *task == p.task && *key != "work.dropped" => Some(*key),
+            _ => None,
+        }).take(2).collect();
+        let yielded = last_two == ["work.polled", "wake"];
+        let _ = finished;
+        if !made_set && yielded {
             return Some(("C22", "block_on:yield-before-first-registration:panic".into()));
         }
     }
@@ -629,37 +638,54 @@ pub fn classify_panic(host: &Host, p: &PanicInfo, cx: &Ctx) -> Option<(&'static 
         }
     }
     if base == "inter_task_wakeup.rs" && p.msg.contains("left == right") {
-        let left = p.msg.split("left:").nth(1).and_then(|s| s.trim().split_whitespace().next()).unwrap_or("?").to_string();
-        let rc = match left.as_str() {
-            "1" => "dropped",
-            "4294967295" => "blocked",
-            "2" => "cancelled",
-            _ => "other",
-        };
-        // the last wake-up tells whose stream was written
-        let last = host.log.iter().rev().find_map(|e| match e {
-            Ev::Mon { key: "wake", b, .. } => Some(*b),
+        // which wake-up stream operation tripped the assertion: the last one issued
+        let last_op = host.log.iter().rev().find_map(|e| match e {
+            Ev::Call { name, ret, .. } if *name == "stream.read" || *name == "stream.write" => Some((*name, *ret)),
             _ => None,
         });
-        let _ = cx;
-        if let Some(b) = last {
-            let t = (b >> 8) as usize;
-            // root cause: EVENT_CANCEL leaves SLEEP_STATE_SLEEPING behind, so any
-            // later wake of that task's waker (during its teardown or afterwards)
-            // writes to a wake-up stream nobody reads any more
-            if host.tasks.get(t).map_or(false, |t| t.cancel_delivered) {
-                return Some(("C23", "wakeup:wake-of-task-cancelled-while-sleeping:panic".into()));
+        let code = |ret: u64| -> String {
+            match ret {
+                0xffff_ffff => "blocked".into(),
+                r => match r & 0xf {
+                    0 => format!("completed-{}", r >> 4),
+                    1 => "dropped".into(),
+                    2 => "cancelled".into(),
+                    _ => "other".into(),
+                },
             }
-            let target = match (b >> 4) & 0xf {
-                TS_EXITED => "target-exited",
-                TS_SLEEPING => "target-sleeping",
-                crate::work::TS_WOKEN => "target-already-woken",
-                crate::work::TS_POLLING => "target-suspended-not-sleeping",
-                _ => "target-running",
-            };
-            return Some(("C23", format!("wakeup:panic:write-to-wakeup-stream-returned-{rc}:{target}")));
+        };
+        let _ = cx;
+        match last_op {
+            Some(("stream.read", ret)) => return Some(("C23", format!("wakeup:panic:read-of-wakeup-stream-returned-{}-instead-of-blocking", code(ret)))),
+            Some(("stream.write", ret)) => {
+                // the last wake-up tells whose stream was written
+                let last = host.log.iter().rev().find_map(|e| match e {
+                    Ev::Mon { key: "wake", b, .. } => Some(*b),
+                    _ => None,
+                });
+                let rc = code(ret);
+                if let Some(b) = last {
+                    let t = (b >> 8) as usize;
+                    // root cause: EVENT_CANCEL leaves SLEEP_STATE_SLEEPING behind, so any
+                    // later wake of that task's waker (during its teardown or afterwards)
+                    // writes to a wake-up stream nobody reads any more (BLOCKED: read
+                    // cancelled; DROPPED: reader end gone)
+                    if host.tasks.get(t).map_or(false, |t| t.cancel_delivered) && (rc == "blocked" || rc == "dropped") {
+                        return Some(("C23", "wakeup:wake-of-task-cancelled-while-sleeping:panic".into()));
+                    }
+                    let target = match (b >> 4) & 0xf {
+                        TS_EXITED => "target-exited",
+                        TS_SLEEPING => "target-sleeping",
+                        crate::work::TS_WOKEN => "target-already-woken",
+                        crate::work::TS_POLLING => "target-suspended-not-sleeping",
+                        _ => "target-running",
+                    };
+                    return Some(("C23", format!("wakeup:panic:write-to-wakeup-stream-returned-{rc}:{target}")));
+                }
+                return Some(("C23", format!("wakeup:panic:write-to-wakeup-stream-returned-{rc}:target-unknown")));
+            }
+            _ => {}
         }
-        return Some(("C23", format!("wakeup:panic:write-to-wakeup-stream-returned-{rc}:target-unknown")));
     }
     None
 }
